@@ -463,6 +463,19 @@ static int32_t rtosc_convert_to_range(const rtosc_arg_val_t* const arg,
         return 0;
 }
 
+//! the value that stands directly in front of whatever follows the argument
+//! @a cur (which takes @a inc arg vals): the last element if @a cur is a
+//! range with delta, else its last arg val
+static const rtosc_arg_val_t* value_in_front_of_next(const rtosc_arg_val_t* cur,
+                                                     size_t inc,
+                                                     rtosc_arg_val_t* buf)
+{
+    if(cur->type == '-' && rtosc_av_rep_has_delta(cur) &&
+       rtosc_av_rep_num(cur) > 0)
+        return rtosc_arg_val_range_arg(cur, rtosc_av_rep_num(cur)-1, buf);
+    return cur + inc - 1;
+}
+
 size_t rtosc_print_arg_val(const rtosc_arg_val_t *arg,
                            char *buffer, size_t bs,
                            const rtosc_print_options* opt, int *cols_used, const rtosc_arg_val_t* prev_arg_if_range)
@@ -692,6 +705,9 @@ size_t rtosc_print_arg_val(const rtosc_arg_val_t *arg,
             int args_written_this_line = (cols_used) ? 1 : 0;
             STACKALLOC(rtosc_arg_val_t, args_converted, rtosc_arg_arr_len(val)); // range conversion
 
+            const rtosc_arg_val_t* prev = NULL;
+            rtosc_arg_val_t prev_buf;
+
             COUNT_UP_WRITE('[');
             if(rtosc_arg_arr_len(val))
             for(int32_t i = 1; i <= rtosc_arg_arr_len(val); )
@@ -700,8 +716,10 @@ size_t rtosc_print_arg_val(const rtosc_arg_val_t *arg,
                 const rtosc_arg_val_t* input = conv ? args_converted : arg+i;
 
                 size_t tmp = rtosc_print_arg_val(input, buffer, bs,
-                                                 opt, cols_used, (i == 1) ? NULL : arg + i -1);
-                i += conv ? conv : next_arg_offset(arg+i);
+                                                 opt, cols_used, prev);
+                int32_t inc = conv ? conv : (int32_t)next_arg_offset(arg+i);
+                prev = value_in_front_of_next(arg+i, inc, &prev_buf);
+                i += inc;
                 COUNT_UP(tmp);
 
                 linebreak_check_after_write(cols_used, &wrt,
@@ -761,13 +779,15 @@ size_t rtosc_print_arg_vals(const rtosc_arg_val_t *args, size_t n,
     size_t sep_len = strlen(opt->sep);
     char* last_sep = buffer - 1;
     STACKALLOC(rtosc_arg_val_t, args_converted, n); // only used for range conversion
+    const rtosc_arg_val_t* prev = NULL;
+    rtosc_arg_val_t prev_buf;
 
     for(size_t i = 0; i < n;)
     {
         int32_t conv = rtosc_convert_to_range(args, n-i, args_converted, opt);
         const rtosc_arg_val_t* input = conv ? args_converted : args;
 
-        size_t tmp = rtosc_print_arg_val(input, buffer, bs, opt, &cols_used, (i == 0) ? NULL : (args-1));
+        size_t tmp = rtosc_print_arg_val(input, buffer, bs, opt, &cols_used, prev);
         wrt += tmp;
         buffer += tmp;
         bs -= tmp;
@@ -779,6 +799,8 @@ size_t rtosc_print_arg_vals(const rtosc_arg_val_t *args, size_t n,
                                     opt->linelength);
 
         size_t inc = conv ? conv : next_arg_offset(args);
+        // a range that follows looks at the value in front of it
+        prev = value_in_front_of_next(args, inc, &prev_buf);
         i += inc;
         args += inc;
         if(i<n)
